@@ -13,7 +13,7 @@ from ..harness import Clause, Prop, Violation, require
 
 RATE = st.one_of(st.floats(min_value=1e-9, max_value=1 - 1e-9),
                  st.floats(min_value=0.01, max_value=0.99),
-                 st.sampled_from([0.5, 0.1, 0.9, 1e-6, 0.999]))
+                 st.sampled_from([0.5, 0.1, 0.9, 1e-6, 0.999, 1e-100, 1e-300, 1e-309, 3e-310]))
 MOD_RATE = st.one_of(st.floats(min_value=1e-6, max_value=1 - 1e-6), st.floats(min_value=0.01, max_value=0.99))
 SIGMA = st.floats(min_value=-3, max_value=3).map(math.exp)
 MU = st.floats(min_value=-50, max_value=50)
@@ -27,7 +27,10 @@ def _normal_cases(draw):
                 rates=sorted(draw(st.lists(st.floats(min_value=1e-3, max_value=1 - 1e-3), min_size=1, max_size=4))),
                 fm=[draw(MOD_RATE), draw(MOD_RATE), draw(st.integers(1, 10**4)), draw(st.integers(1, 10**4))],
                 n=draw(st.integers(1, 3000)), p_pos=draw(st.sampled_from([0.5, 0.0, 1.0, 0.3, 0.97])),
-                seed=draw(st.integers(0, 2**31 - 1)))
+                seed=draw(st.integers(0, 2**31 - 1)),
+                # a model whose scores sit far from zero relative to their spread
+                far=dict(mu=draw(st.sampled_from([1e8, -1e8, 3e9, 1e6, -2.5e7])),
+                         sigma=draw(st.sampled_from([2e-6, 1e-5, 1e-3, 5e-7]))))
 
 
 def _isclose(a, b, rel, abs_=0.0):
@@ -84,6 +87,18 @@ def check_normal(case):
                 "ds:roc-rates", f"{ctx}: roc({axis}=...) rates differ from the model's rates at its thresholds")
         require(np.allclose(getattr(c, axis), rr, rtol=1e-9, atol=0), "ds:roc-axis",
                 f"{ctx}: roc({axis}={rr.tolist()}) reproduces {np.asarray(getattr(c, axis)).tolist()}")
+    # ... also where thresholds are coarse compared with the spread of the scores (|mu| >> sigma):
+    # whatever thresholds are returned, the curve's rates are the model's rates at them
+    if case.get("far"):
+        mu_, sg_ = case["far"]["mu"], case["far"]["sigma"]
+        df = NormalDataset(mu_pos=mu_, mu_neg=mu_ - 3 * sg_, sigma_pos=sg_, sigma_neg=2 * sg_, score_class=case["sc"])
+        for axis in ("fnr", "fpr"):
+            c = df.roc(**{axis: rr})
+            th = np.asarray(c.thresholds, dtype=float)
+            require(np.allclose(c.fnr, df.fnr(th), rtol=1e-12, atol=0) and np.allclose(c.fpr, df.fpr(th), rtol=1e-12, atol=0),
+                    "ds:roc-rates", lambda: f"NormalDataset(mu_pos={mu_!r}, sigma_pos={sg_!r}, ...).roc({axis}={rr.tolist()}): "
+                                            f"curve {axis} {np.asarray(getattr(c, axis)).tolist()} but the model's {axis} at the "
+                                            f"returned thresholds is {np.asarray(getattr(df, axis)(th)).tolist()}")
     for kw in ({}, dict(fnr=rr, fpr=rr)):
         try:
             d.roc(**kw)
@@ -223,4 +238,4 @@ PROP = Prop(
     ],
 )
 
-RULE_EXTRA = ('p within 1e-4..1e-11 of a multiple of 1/n; floor tolerance max(1e-13, 4e-16 q).')
+RULE_EXTRA = ('rates down to 3e-310 (subnormal); roc() of models with |mu| up to 3e9 and sigma down to 5e-7; p within 1e-4..1e-11 of a multiple of 1/n; floor tolerance max(1e-13, 4e-16 q).')
